@@ -432,6 +432,7 @@ struct TypedGen {
   bool optConstant = true;            // context may contain the integer-like constant set C1
   bool optDerived = true;             // context may contain derived globals that carry data directly (D..)
   int optMinBase = 0;                 // minimal number of elements of a base set
+  bool optRichTemplates = false;      // every function is a template whose argument types are tuples / sets of tuples / nested sets over shared radicals
   bool optReuseNames = false;         // binders prefer names whose earlier scope has ended (legal re-declaration in sibling / domain scopes)
 
   explicit TypedGen(pbt::Ctx& ctx) : c(ctx) {}
@@ -505,16 +506,30 @@ struct TypedGen {
       G.globals.push_back(g);
     }
     // term functions and predicates (bodies generated with the arguments in scope)
-    const int nf = c.ipick(0, 2);
+    const int nf = optRichTemplates ? c.ipick(1, 3) : c.ipick(0, 2);
     for (int i = 1; i <= nf; ++i) {
       FuncDef f; const bool pred = c.chance(1, 3);
       f.name = (pred ? "P" : "F") + std::to_string(i);
-      const bool templated = c.chance(1, 3);
+      const bool templated = optRichTemplates || c.chance(1, 3);
       const int na = c.ipick(1, 2);
       static const std::vector<std::string> argNames = {"a", "b", "x", "s"};
       for (int k = 0; k < na; ++k) {
         Ty t;
-        if (templated) { const int w = c.ipick(0, 2); t = w == 0 ? Ty::Base("R1") : w == 1 ? Ty::Set(Ty::Base("R1")) : Ty::Set(Ty::Base(k == 0 ? "R1" : "R2")); }
+        if (optRichTemplates) {
+          const Ty r1 = Ty::Base("R1"), r2 = Ty::Base("R2");
+          switch (c.ipick(0, 9)) {
+            case 0: t = r1; break;
+            case 1: t = r2; break;
+            case 2: t = Ty::Set(r1); break;
+            case 3: t = Ty::Set(r2); break;
+            case 4: t = Ty::Tuple({r1, r2}); break;
+            case 5: t = Ty::Tuple({r2, r1}); break;
+            case 6: t = Ty::Set(Ty::Tuple({r1, r2})); break;
+            case 7: t = Ty::Tuple({Ty::Set(r1), r2}); break;
+            case 8: t = Ty::Set(Ty::Set(r1)); break;
+            default: t = Ty::Set(Ty::Tuple({r1, r1, r2})); break;
+          }
+        } else if (templated) { const int w = c.ipick(0, 2); t = w == 0 ? Ty::Base("R1") : w == 1 ? Ty::Set(Ty::Base("R1")) : Ty::Set(Ty::Base(k == 0 ? "R1" : "R2")); }
         else t = randType(1 + c.ipick(0, 1));
         f.args.emplace_back(argNames[static_cast<size_t>(k)] + (c.chance(1, 4) ? "1" : ""), t);
       }
@@ -527,6 +542,7 @@ struct TypedGen {
       else {
         // result type built from the argument types so that templated bodies have something to work with
         std::vector<Ty> cands; for (auto& a : f.args) { cands.push_back(a.second); if (a.second.isSet()) cands.push_back(a.second.elem()); else cands.push_back(Ty::Set(a.second)); }
+        if (optRichTemplates) for (auto& a : f.args) { const Ty& core = a.second.isSet() ? a.second.elem() : a.second; if (core.isTuple()) for (auto& ct : core.comps) { cands.push_back(ct); cands.push_back(Ty::Set(ct)); } }
         cands.push_back(Ty::Base("Z"));
         if (!templated) cands.push_back(randType(2));
         f.result = c.oneof(cands);
@@ -580,6 +596,22 @@ struct TypedGen {
       const Global* g = gs[static_cast<size_t>(k - nl)];
       if (g->construction) features[6] = true;
       return mkName(TID::ID_GLOBAL, g->name);
+    }
+    if (optRichTemplates && t.isBase() && (t.base == "R1" || t.base == "R2")) {
+      // a radical-typed value can only be taken out of the parameters: projections of tuples, elements of sets
+      std::vector<EP> ways;
+      for (auto& l : scope) {
+        const EP v = mkName(TID::ID_LOCAL, l.name);
+        if (l.type.isTuple()) for (size_t i = 0; i < l.type.comps.size(); ++i) {
+          if (l.type.comps[i] == t) ways.push_back(mkIdx(TID::SMALLPR, {static_cast<int>(i + 1)}, {v}));
+          if (l.type.comps[i] == Ty::Set(t)) ways.push_back(mk(TID::DEBOOL, {mkIdx(TID::SMALLPR, {static_cast<int>(i + 1)}, {v})}));
+        }
+        if (l.type == Ty::Set(t)) ways.push_back(mk(TID::DEBOOL, {v}));
+        if (l.type == Ty::Set(Ty::Set(t))) ways.push_back(mk(TID::DEBOOL, {mk(TID::DEBOOL, {v})}));
+        if (l.type.isSet() && l.type.elem().isTuple()) for (size_t i = 0; i < l.type.elem().comps.size(); ++i)
+          if (l.type.elem().comps[i] == t) ways.push_back(mk(TID::DEBOOL, {mkIdx(TID::BIGPR, {static_cast<int>(i + 1)}, {v})}));
+      }
+      if (!ways.empty()) { features[7] = true; return c.oneof(ways); }
     }
     switch (t.k) {
       case Ty::BASE:
